@@ -4,6 +4,10 @@ import json, sys
 
 ENGINE = "gsx"
 CHECKS = {
+ "C34": dict(
+   text="Two raw clients run short read/write programs with symbolic values against the real server pipeline inside the symbolic executor; the executor explores the interleavings of all goroutines involved up to a preemption bound, records each history on a logical clock and checks it against every linearization of a register. Schedule-dependent counterexamples are replayed natively with delay points that follow the explored schedule.",
+   note="Bounded schedules (<= 1/2 forced context switches), 2 clients x <= 2 operations, one node. Data-race freedom at the memory-model level is C36 (not applicable). Trusted: go/ssa, gsx goroutine interpretation, z3.",
+   ref="DESIGN.md §5 C34"),
  "C30": dict(
    text="Server configurations (subsets of policy/mode pairs, applied through the real option functions) and client OpenSecureChannel requests are executed symbolically end to end: the real client channel against the real channel broker over a modelled pipe with ideal crypto; on the uasc level the mode in the request body is a free 32-bit value independent of how the request is secured. Oracle: channel opened iff the pair is configured and the mode fits the policy; advertised endpoints equal the configured pairs.",
    note="Found and fixed: the server adopted any policy/mode from the client's request (a SignAndEncrypt-only server opened a None channel; a secured request could ask for mode None or an undefined mode). Outside: the accept loop wiring, New()'s default, renewals. Trusted: go/ssa, gsx, cvc5.",
@@ -133,7 +137,6 @@ NOT_APPLICABLE = {
  "C08": "needs an independent Part 6 layout implementation in the harness compared byte for byte through the uninterpreted primitives; expressible with the engine but not built in this revision (DESIGN §6); C07 only sees layout errors that break gopcua-to-gopcua traffic",
  "C27": "all interleavings of the publish loop with API callers: the bounded-preemption explorer exists (C11) but the harness with the loop and its transport stub was not built (DESIGN §6)",
  "C28": "needs the monitor/subscription pump driven through ClientInterface stubs plus the server queue under schedules; not built (DESIGN §6)",
- "C34": "linearizability over concurrent histories needs schedule exploration plus a history checker; only single-step register semantics would be decidable here and was not built (DESIGN §6)",
  "C25": "connection lifecycle under real TCP resets, server restarts and wall-clock outages: the quantified object is a fault sequence over the OS network stack and goroutine population, not a computation that can be encoded as solver queries within reach (DESIGN §6)",
  "C36": "data-race freedom is defined over the Go memory model / race detector happens-before relation on real schedules; the symbolic executor has no encoding of either (DESIGN §6)",
  "C37": "a finite matrix of real RSA/AES/x509/TCP executions; nothing in it is symbolic and with idealised crypto the result would say nothing about interoperability: enumeration of concrete runs is outside this technique (DESIGN §6)",
